@@ -125,6 +125,9 @@ def _plant(rng, stmt, where, tails=("", "", "nop", "; after")):
 def _c17_spec(case):
     sp = case["spec"]
     f, ln, col, text = sp["file"], sp["line"], sp["col"], sp["text"]
+    if col is not None and str(case.get("kind", "")).startswith("syntax-"):
+        # a ParserSyntaxError is reported by Token.trace(): "\n{file}:{line}:{col} {token type}\n{line text}\n{caret}"
+        return {"pre": f"\n{f}:{ln}:{col} ", "inf": f"\n{text}\n", "suf": f"\n{text}\n{' ' * col}^"}
     if col is not None:
         return {"pre": f"{f}:{ln}:{col} : ", "inf": f"\n{text}\n", "suf": f"\n{text}\n{' ' * col}^"}
     return {"pre": '"', "inf": '" at\n', "suf": f'" at\n{f}:{ln} {text}'}
